@@ -88,16 +88,20 @@ pub enum Svc {
 }
 
 impl Svc {
-    pub async fn new(kind: Kind, pki: &Pki, timeout: Duration) -> Svc {
+    /// `via_clone`: the service is built by a clone of the configured acceptor (what a multi-worker server does with
+    /// its factories); the configuration, handshake timeout included, travels with the clone.
+    pub async fn new(kind: Kind, pki: &Pki, timeout: Duration, via_clone: bool) -> Svc {
         match kind {
             Kind::Rustls => {
                 let mut a = arustls::Acceptor::new(rustls_server_config(&pki.good));
                 a.set_handshake_timeout(timeout);
+                let a = if via_clone { a.clone() } else { a };
                 Svc::R(ServiceFactory::<Pipe>::new_service(&a, ()).await.unwrap())
             }
             Kind::OpenSsl => {
                 let mut a = aossl::Acceptor::new(openssl_acceptor(&pki.good));
                 a.set_handshake_timeout(timeout);
+                let a = if via_clone { a.clone() } else { a };
                 Svc::O(ServiceFactory::<Pipe>::new_service(&a, ()).await.unwrap())
             }
         }
@@ -204,6 +208,7 @@ pub struct Seen {
     pub gate_wakes: u64,
     pub gate_scenarios: u64,
     pub max_concurrent: u64,
+    pub acceptors_built_from_clone: u64,
 }
 
 async fn exchange(server: &mut BoxRw, client: &mut BoxRw, r: &mut Rng, seen: &mut Seen) -> Result<(), Fail> {
@@ -249,7 +254,11 @@ async fn exchange(server: &mut BoxRw, client: &mut BoxRw, r: &mut Rng, seen: &mu
 
 /// One accept call against one client behaviour. Returns the c->s chunk sizes seen by the relay (for complete clients).
 pub async fn accept_case(kind: Kind, client: Client, timeout: Duration, pki: Arc<Pki>, seed: u64, seen: &mut Seen) -> Result<Vec<usize>, Fail> {
-    let svc = Svc::new(kind, &pki, timeout).await;
+    let via_clone = Rng::new(seed ^ 0xC10E).next_u64() & 1 == 1;
+    if via_clone {
+        seen.acceptors_built_from_clone += 1;
+    }
+    let svc = Svc::new(kind, &pki, timeout, via_clone).await;
     let cut = match client {
         Client::StallAfter(n) => Cut::StallAfter(n),
         Client::CloseAfter(n) => Cut::CloseAfter(n),
@@ -342,7 +351,7 @@ pub fn gate_case(kind: Kind, limit: usize, ops_seed: u64, pki: Arc<Pki>) -> Resu
         let sys = actix_rt::System::with_tokio_rt(|| tokio::runtime::Builder::new_current_thread().enable_all().start_paused(true).build().unwrap());
         sys.block_on(async move {
             let timeout = Duration::from_secs(5);
-            let svc = Svc::new(kind, &pki, timeout).await;
+            let svc = Svc::new(kind, &pki, timeout, ops_seed & 1 == 1).await;
             let mut r = Rng::new(ops_seed);
             let mut inflight: Vec<tokio::task::JoinHandle<(Outcome, Option<BoxRw>)>> = Vec::new();
             let mut parked: Option<Arc<vh_core::exec::WakeRec>> = None;
@@ -563,5 +572,6 @@ pub fn run(args: &Args, rep: &mut Report) {
     rep.add("obs_gate_pending_answers", seen.gate_pending);
     rep.add("obs_gate_wakeups_checked", seen.gate_wakes);
     rep.add("obs_gate_scenarios", seen.gate_scenarios);
+    rep.add("obs_acceptors_built_from_clone", seen.acceptors_built_from_clone);
     rep.max("max_concurrent_handshakes", seen.max_concurrent);
 }
